@@ -348,6 +348,10 @@ def run(pm, ctx):
     run_decisions(pm, ctx, 'C10-RD', OWN['C10'])
     from .. import exprdrift
     exprdrift.run(pm, ctx, 'C10-RE', OWN['C10'])
+    from ..conddrift import run_calls
+    run_calls(pm, ctx, 'C10-RC', OWN['C10'])
+    from .. import memo
+    memo.run(pm, ctx, 'C10-MK', OWN['C10'])
     ctx.import_rules(pm, 'C08', {'C08-R3'}, 'C10-R10',
                      'the generated validators carry the declared pattern/format text exactly '
                      '(through repr()), so what the compiler accepted is what the runtime checks '
